@@ -110,7 +110,11 @@ VelocityOk(r, d) ==
                => \A x \in vel[j], y \in vel[k] : y > x)                         \* louder never quieter
 \* the value of a tempo / meter / key setting in force at instance i: the last demand of that type at or before i
 InForceAt(dem, ty, i) == LET S == {x \in dem : x[2] = ty /\ x[1] <= i} IN (CHOOSE x \in S : \A y \in S : y[1] <= x[1])[3]
-C07Ok(r) == LET d == Eff(r.doc, r.flags)  ctl == SelectSeq2(r.ev, IsControl)  dem == Demands(d)
+\* a time signature travels as two bytes (numerator, exponent of the denominator): a numerator or denominator above 255
+\* has no event that carries "the written value", so such a piece can only be refused (written wrong is a violation)
+MeterFits(d) == \A i \in 1..Len(d) : d[i].meter = <<>> \/ (d[i].meter[1] <= 255 /\ d[i].meter[2] <= 255)
+C07Written(r) ==
+            LET d == Eff(r.doc, r.flags)  ctl == SelectSeq2(r.ev, IsControl)  dem == Demands(d)
                 textual == {mTEXT, mLYRIC, mMARKER} IN
          /\ r.ok
          /\ \E ch \in Choices(r.division, d) : LET st == StartsOf(r, d, ch) IN
@@ -128,4 +132,5 @@ C07Ok(r) == LET d == Eff(r.doc, r.flags)  ctl == SelectSeq2(r.ev, IsControl)  de
          \* texts, lyrics and markers are never repeated
          /\ Cardinality({j \in 1..Len(ctl) : ctl[j][6] \in textual}) = Cardinality({x \in dem : x[2] \in textual})
          /\ VelocityOk(r, d)
+C07Ok(r) == (r.refused /\ ~MeterFits(Eff(r.doc, r.flags))) \/ C07Written(r)
 =============================================================================
